@@ -364,6 +364,21 @@ def run_shard(shard, ctx):
             ctx.sample(dict(shard=shard["id"], op=op.name, layout=op.layout, example_idx=[-1, 0]))
 
 
+QUERIES = [
+    ("integrate1", lambda o: o.integrate("1")),
+    ("integrate_x", lambda o: o.integrate("x")),
+    ("integrate_xx", lambda o: o.integrate("xx'")),
+    ("integrate_quad_outer", lambda o: o.integrate("(Ax+a)(Bx+b)'", A_mat=J(al.int_matrix(2, o.D, salt=1) * 0.5), a_vec=J(al.int_vector(2, salt=1) * 0.5))),
+    ("integrate_xbxx", lambda o: o.integrate("xb'xx'", b_vec=J(al.int_vector(o.D, salt=2) * 0.5))),
+    ("integrate_quartic", lambda o: o.integrate("(Ax+a)'(Bx+b)(Cx+c)'(Dx+d)", A_mat=J(al.int_matrix(2, o.D, salt=1) * 0.5), c_vec=J(al.int_vector(o.D, salt=1) * 0.5))),
+    ("log_integral", lambda o: o.log_integral()),
+    ("entropy", lambda o: o.entropy()),
+    ("evaluate", lambda o: o.evaluate(J(al.points(2, o.D, salt=3)))),
+    ("get_marginal", lambda o: o.get_marginal(jnp.array([0])).mu),
+    ("kl", lambda o: o.kl_divergence(o.slice(jnp.array([0])))),
+]
+
+
 def run_update(shard, ctx):
     """update(idx, d) replaces exactly the addressed components."""
     tier, seed = shard["tier"], shard["seed"]
@@ -376,6 +391,9 @@ def run_update(shard, ctx):
                 facts = dict(op="update", kind=kind, R=R, idx=",".join(map(str, idx)))
                 p = mk_meas(kind, D, R, vi, seed, ("upd",))
                 d = mk_meas(kind, D, len(idx), vi + 2, seed, ("updd",))
+                # the object has been used before it is updated (every query that may leave something behind)
+                for q in QUERIES:
+                    q[1](p)
                 before = {a: np.array(getattr(p, a)) for a in ATTRS if getattr(p, a, None) is not None}
                 with ctx.guard("update.call", facts) as g:
                     p.update(jnp.array(idx), d)
@@ -396,3 +414,12 @@ def run_update(shard, ctx):
                 ref = np.array(np.asarray(mk_meas(kind, D, R, vi, seed, ("upd",)).evaluate_ln(J(x))))
                 ref[idx] = np.asarray(d.evaluate_ln(J(x)))
                 ctx.close("update.value", np.asarray(p.evaluate_ln(J(x))), ref, facts=facts)
+                # every query on the updated object equals the query on a freshly built object with the same components
+                Sig = np.array(np.asarray(mk_meas(kind, D, R, vi, seed, ("upd",)).Sigma))
+                mu = np.array(np.asarray(mk_meas(kind, D, R, vi, seed, ("upd",)).mu))
+                Sig[idx] = np.asarray(d.Sigma)
+                mu[idx] = np.asarray(d.mu)
+                fresh = objs.mk_pdf(kind, Sig, mu)
+                for qn, qf in QUERIES:
+                    with ctx.guard("update.then_query." + qn, facts):
+                        ctx.close("update.then_query." + qn, np.asarray(qf(p)), np.asarray(qf(fresh)), facts=dict(facts, query=qn), symptom="stale_after_update")
